@@ -582,6 +582,21 @@ def run(ctx):
                     ctx.violation(key, {"stream": "stat", "case": c, "obs_hist": [plus, minus], "p_plus": pp, "p_value": pv},
                                   what=f"eigenvalue samples ({c['dev']}) reject the exact distribution: P(+1)={pp:.6f} observed {plus}/{s} p={pv:.2e}")
 
+    for c, o in zip(stat, obs["stat"]):
+        if "crash" in o or not o.get("vhists"):
+            continue
+        key = "statv:" + json.dumps(c, sort_keys=True)
+        for s_, vh in zip(c["sv"], o["vhists"]):
+            if vh[4] or sum(vh[:4]) != s_:
+                ctx.violation(key, {"stream": "stat", "case": c, "value_hist": vh}, what="samples of Hermitian(diag(1,2,3,4)) are not all eigenvalues / wrong number of samples")
+                continue
+            pv, st, df, imp = chi_square(vh[:4], o["pv"])
+            tests += 1
+            min_p = min(min_p, pv)
+            if imp or pv < ALPHA:
+                ctx.violation(key, {"stream": "stat", "case": c, "value_hist": vh[:4], "p": o["pv"], "p_value": pv},
+                              what=f"eigenvalue samples of a two-wire observable with distinct eigenvalues ({c['dev']}) reject the exact distribution (eigenvalue looked up at the wrong basis index?) p={pv:.2e}")
+
     ctx.coverage.update({
         "evaluations": len(det) + len(valid) + len(stat),
         "distinct_nontrivial": len(nontrivial),
